@@ -15,7 +15,8 @@ P = {
     "theorems_module": "Properties.C09",
     "theorems": ["C09_trust_is_membership", "C09_trust_is_membership_configured", "C09_untrusted_noninterference",
                  "C09_untrusted_connection_only", "C09_untrusted_not_passed_on", "C09_trusted_overrides",
-                 "C09_trusted_exactly_its_component", "C09_upstream_forwarding_is_composed", "C09_contains_never_panics",
+                 "C09_trusted_exactly_its_component", "C09_history_pointwise", "C09_history_untrusted",
+                 "C09_upstream_forwarding_is_composed", "C09_contains_never_panics",
                  "C09_F1_pinned_refuted", "C09_F1_pinned_noninterference_refuted"],
     "streams": [{
         "name": "entrypoints", "pkg": "./internal/zzverif/c09", "test": "TestVerifC09",
@@ -36,8 +37,11 @@ P = {
             "factory, repository, executor, middleware chain, header finalizer, httputil.ReverseProxy to an echo upstream); every request "
             "is served a second time WITHOUT the seven headers and all sinks (status, rule, view incl. the complete header map, response, "
             "upstream request line/Host/headers/body, access log + request dump) are compared and searched for pieces of the forwarded "
-            "values; 40 requests per run over real loopback sockets from 127.0.0.x source addresses; corpus (42 cases: former finding "
-            "witnesses, the auditor's scenarios) first.  Non-trivial = at least one forwarded header present; distinct by hash of the input.",
+            "values; 40 requests per run over real loopback sockets from 127.0.0.x source addresses; n/12 HISTORIES per run: a freshly started "
+            "application serves 2-6 requests in order from peers around one anchor address (the listed anchor on several ports, "
+            "addresses whose text continues the anchor's text such as 10.0.0.1 -> 10.0.0.17 / 10.0.0.104 or ::1 -> ::1a, the anchor "
+            "without port, its IPv4-mapped twin, strangers; trusted first or neighbour first), every step judged on its own; corpus "
+            "(42 single cases: former finding witnesses, the auditor's scenarios; 8 histories) first.  Non-trivial = at least one forwarded header present; distinct by hash of the input.",
     "anchors": ["internal/handler/middleware/http/trustedproxy/handler.go", "internal/handler/requestcontext/extract_url.go",
                 "internal/handler/requestcontext/extract_method.go", "internal/handler/requestcontext/request_context.go",
                 "internal/handler/proxy/request_context.go", "internal/handler/decision/service.go",
@@ -72,7 +76,9 @@ P = {
                   "header sets its component, the rest falls back to the actual request, and a component depends on no header but its own "
                   "(frame theorem); the client list is stated with independent characterisations of Split/TrimSpace. No guard: finding "
                   "C09-F1 was repaired by fix: e501d3a; the pinned loader survives only in the witnesses C09_F1_pinned_refuted / "
-                  "C09_F1_pinned_noninterference_refuted. 9 property theorems + 2 witnesses. The model is tied to the code by ~1800 (quick) / "
+                  "C09_F1_pinned_noninterference_refuted. One instance serving a history of requests is modelled without state; "
+                  "C09_history_pointwise / C09_history_untrusted say that the i-th request gets what it would get alone, whatever was "
+                  "served before. 11 property theorems + 2 witnesses. The model is tied to the code by ~1800 (quick) / "
                   "40000 (thorough) generated requests per run through the real assembled decision and proxy applications; inside Coq the "
                   "model's prediction is compared on the projections the property names, and a predicate written from the specification "
                   "alone (incl. the driver's 2-safety pair and taint results over the complete observation) is evaluated on the "
@@ -86,7 +92,8 @@ P = {
                   "refuses is used as received, cut at the first '?' (fix: d3f6cd7), the predicate also accepts ignoring it. NOT covered: the Envoy ext_authz entry "
                   "point (grpcv3/request_context.go takes the client list from x-forwarded-for metadata with no trust test; the statement "
                   "names decision and proxy mode; see C13), configuration by environment variables (C20), TLS/HTTP/2 on real sockets, "
-                  "non-ASCII header values. C09-F1 is fixed (fix: e501d3a = fixes/C09-F1.diff); the evaluator runs the repaired variant of the "
+                  "non-ASCII header values, state that only shows after more than 6 requests on one instance or under concurrency "
+                  "(histories are short and sequential). C09-F1 is fixed (fix: e501d3a = fixes/C09-F1.diff); the evaluator runs the repaired variant of the "
                   "model (`check true`), so a regression is an ordinary VIOLATION (corpus cases 0, 1, 21, 22 are the former witnesses). "
                   "Examples (hypotheses satisfiable) are compiled with Properties/C09.v but not counted as theorems.",
     "assumptions": [
